@@ -201,6 +201,7 @@ def check(ctx: Ctx) -> None:
                                                      f'the same statement row can classify differently', ft['_parse_call'])
     r2(ctx, fs)
     r3(ctx, fs)
+    r3_totals_uncut(ctx)
     r4(ctx)
 
 
@@ -239,6 +240,26 @@ def r2(ctx: Ctx, fs) -> None:
                      f'a tag-only rule placed first is reported as the match with an empty category, and `not contains("HULU")` is searched as a regex', fs[cmd].node)
         else:
             ctx.ok('C16.R2', fs[cmd], f'reaches exactly the deciders of up: {sorted(d[6:] for d in ref)}', construct='deciders:same')
+
+
+def r3_totals_uncut(ctx: Ctx) -> None:
+    """discover's summary line speaks about *all* unknown transactions: neither the count nor the sum is taken over a list that was cut to --limit"""
+    proj = ctx.proj
+    f = proj.func(COMMANDS['discover'])
+    fl = get_flow(proj, f)
+    n = 0
+    for c in ast.walk(f.node):
+        if isinstance(c, ast.Call) and isinstance(c.func, ast.Name) and c.func.id == 'print' and 'Total unknown' in src(c):
+            for hole in [x for x in ast.walk(c) if isinstance(x, ast.FormattedValue)]:
+                at_ = fl.atoms(hole.value, c)
+                if not ({'name:unknown_txns', 'name:desc_stats', 'name:all_txns'} & at_):
+                    continue
+                n += 1
+                cut = sorted(a for a in at_ if a in ('op:slice', 'name:limit') or a.startswith('attr:args.limit'))
+                ctx.check(not cut, 'C16.R3', f, f'total:{src(hole.value)[:24]}', f'{src(hole.value)[:40]} ranges over all unknown transactions',
+                          f'{src(hole.value)[:50]!r} in the "Total unknown" line is computed from a list cut to the display limit ({cut}): discover reports fewer / less than `tally up` leaves Unknown', hole)
+    if n == 0:
+        ctx.unknown('C16.R3', f, 'the "Total unknown" summary line of cmd_discover was not found')
 
 
 def r3(ctx: Ctx, fs) -> None:
@@ -280,6 +301,23 @@ def r4(ctx: Ctx) -> None:
     proj = ctx.proj
     ed = proj.func('merchant_utils.explain_description')
     fl = get_flow(proj, ed)
+    # the inline modifiers of a legacy rule ([amount>200], [month=12]) are consulted under the same condition by explain as by the classifier
+    nm = proj.func('merchant_utils.normalize_merchant')
+    nfl = get_flow(proj, nm)
+
+    def modifier_guards(f_, fl_):
+        out = []
+        for c in fl_.calls('check_all_conditions'):
+            g_ = frozenset((t.replace(' ', ''), tr) for t, tr in fl_.cfg.guard_literals(fl_.stmt_of(c)) if 'parsed' in t)
+            out.append((g_, ' and '.join(sorted(('' if tr else 'not ') + t for t, tr in g_))))
+        return out
+    ga, gb = modifier_guards(nm, nfl), modifier_guards(ed, fl)
+    if ga and gb:
+        ctx.check(set(ga) == set(gb), 'C16.R4', ed, 'modifiers-consulted-alike', 'explain checks a rule\'s inline modifiers whenever the classifier does',
+                  f'explain_description consults the inline modifiers under {sorted(t for _g, t in gb)}, normalize_merchant under {sorted(t for _g, t in ga)}: a rule with a single '
+                  f'kind of modifier is unconditional for `tally explain` and conditional for `tally up`', fl.calls('check_all_conditions')[0])
+    elif ga or gb:
+        ctx.unknown('C16.R4', ed, 'check_all_conditions is called by only one of normalize_merchant / explain_description')
     at_calls = fl.calls('apply_transforms')
     m_calls = fl.calls('matches_transaction')
     if not at_calls or not m_calls:
